@@ -482,6 +482,28 @@ def check_receive_frame(eng, ctx):
                node=f3.node)
 
 
+def check_api_gates(eng, ctx):
+    """The local end-of-stream and reset actions carry no payload and
+    consume no window: nothing but the two state machines and the stream
+    lookup may refuse them (a send succeeds exactly where the state permits
+    it)."""
+    allowed = {'NoSuchStreamError', 'ProtocolError', 'StreamClosedError'}
+    for name in ('end_stream', 'reset_stream'):
+        fi = eng.m.func('connection.H2Connection.' + name)
+        esc = eng.R.of(fi.qual)
+        extra = sorted(set(esc) - allowed)
+        how = []
+        for x in extra:
+            w = esc[x]
+            how.append('%s from %s' % (x, '; '.join(sorted(
+                '%s %s' % (o[0].split('.')[-1], o[2])
+                for o in getattr(w, 'origins', ())))[:160]))
+        ctx.ob('FSM.api-gates', fi.qual, 'refused by the state machines only',
+               not extra, '; '.join(how) or 'escape set %s: the connection '
+               'machine, the lookup, the stream machine' % sorted(esc),
+               node=fi.node)
+
+
 def run(ctx, eng):
     ctx.rule('FSM: transition tables and guarded commands extracted from '
              'the AST; step_impl compared cell-wise with the RFC 7540 '
@@ -508,6 +530,7 @@ def run(ctx, eng):
     ctx.exhaustive = True
     check_layer2(eng, ctx)
     check_receive_frame(eng, ctx)
+    check_api_gates(eng, ctx)
     from . import c20
     c20.check_push_leniency(ctx, eng)
     c20.check_lookup_contracts(ctx, eng)
@@ -519,6 +542,9 @@ def run(ctx, eng):
     cm.include(ctx, eng, 'C09', {'ARITH.lookup', 'FLOW.lookup'},
                'idle and closed streams are told apart by the watermark of '
                'the stream\'s own direction')
+    cm.include(ctx, eng, 'C20', {'PAIR.closed-record'},
+               'how a forgotten stream was closed decides between stream '
+               'error and connection error: the record must be its own')
     cm.include(ctx, eng, 'C07', {'PAIR.local-reset'},
                'a reset the library performs itself goes through the '
                'machine (SEND_RST_STREAM), not around it')
